@@ -128,7 +128,10 @@ class MinimizeActionCosts(PlanQualityMetric):
         return (
             isinstance(other, MinimizeActionCosts)
             and self._default == other._default
-            and self._costs == other._costs
+            # Actions are mutable and hashed structurally: an action modified after the creation of
+            # the metric is stored under a stale hash, so the items are hashed again here instead
+            # of comparing the 2 dictionaries directly (dict equality uses the stored hashes).
+            and set(self._costs.items()) == set(other._costs.items())
         )
 
     def __hash__(self):
